@@ -1,4 +1,6 @@
+import AC.Drv.C01
 import AC.Drv.C02
+import AC.Drv.C04
 import AC.Drv.C08
 import AC.Drv.C09
 import AC.Drv.C10
@@ -15,7 +17,10 @@ def dispatch (line : String) : String :=
   | [] => "skip"
   | op :: f =>
     let r := match op with
+      | "c01" => handleC01 f
       | "c02" => handleC02 f
+      | "c04" => handleC04 f
+      | "c16" => handleC16 f
       | "c08" => handleC08 f
       | "c09" => handleC09 f
       | "c10" => handleC10 f
